@@ -137,6 +137,41 @@ def run(chk):
         if a != r:
             chk.violate({"kind": "property", "case": lib.show_case(("debloadeof", [b"<%d bytes>" % len(c[1][0])])), "load": r[:600], "load_eager_eof": a[:600],
                          "explanation": "Load through an io.ReaderAt that reports io.EOF together with the final bytes does not expose what Load on a bytes.Reader exposes"})
+    # the member index as a door of its own: every entry of Deb.ArContent asked IsTarfile() (model: PATH.is_tarfile) and, when
+    # it is one, opened with ArEntry.Tarfile() and listed - control and data tarballs in every encoding list exactly the
+    # packaged files; other members are not tarballs
+    ecases = [("debentries", [b]) for (b, info) in pkgs if info is not None][::2]
+    einfo = [info for (b, info) in pkgs if info is not None][::2]
+    ei = chk.run_impl(ecases)
+    chk.record("member-index-entries", ecases, ei)
+    mnames = sorted({m["name"] for info in einfo for m in info["ms"]})
+    istar = dict(zip(mnames, chk.run_model([("pistar", [n]) for n in mnames])))
+    for c, got, info in zip(ecases, ei, einfo):
+        items = []
+        for m in sorted(info["ms"], key=lambda m: m["name"]):
+            if m["name"].startswith(b"control.tar"):
+                fl = info["ctl_files"]
+            elif m["name"].startswith(b"data.tar"):
+                fl = info["data_files"]
+            else:
+                fl = None
+            t = istar[m["name"]]
+            listing = "-" if t != "T" else show_list(["x%s:%d" % (n.hex(), len(d)) for n, d in fl]) if fl is not None else "?"
+            items.append("( x%s %d %s %s )" % (m["name"].hex(), len(m["data"]), t, listing))
+        want = "ok " + show_list(items)
+        if got != want:
+            chk.violate({"kind": "property", "case": lib.show_case(("debentries", [b"<%d bytes>" % len(c[1][0])])), "impl": got[:900], "expected": want[:900],
+                         "explanation": "the member index of a loaded package does not list the members with their sizes, or a member's IsTarfile / Tarfile() does not expose the packaged files"})
+    # the xz dictionary limit is process-wide state with a documented reset (SetXZMaxDict(0) = the default): after a limit was
+    # set and reset, packages with xz members (8 MiB dictionaries, what xz and dpkg-deb write by default) load as before
+    xz = [(b, r) for (b, info), r in zip(pkgs, impl) if info is not None and (info["cext"] == b"tar.xz" or info["dext"] == b"tar.xz")][:chk.n(12, 120)]
+    xc = [("debxzdict", [lim, b]) for b, _ in xz for lim in (b"1048576", b"4096")]
+    xi = chk.run_impl(xc)
+    chk.record("xz-dictionary-limit-reset", xc, xi)
+    for c, a, r in zip(xc, xi, [r for _, r in xz for _ in (0, 1)]):
+        if a != r:
+            chk.violate({"kind": "property", "case": lib.show_case(("debxzdict", [c[1][0], b"<%d bytes>" % len(c[1][1])])), "plain_load": r[:400], "after_limit_reset": a[:400],
+                         "explanation": "after SetXZMaxDict(n) and SetXZMaxDict(0) a well-formed package with xz members no longer loads as before"})
     # path.Clean (the control entry is the first tar member whose cleaned name is "control") and filepath.Ext (the
     # compression of a member) against their model PATH.v
     import pathgen
